@@ -29,7 +29,7 @@ import types
 
 import z3
 
-from .values import (Internal, SBool, SEnum, SInt, SReal, Sym, SymBytes, SymBytesFn, SymCArray,
+from .values import (Internal, SBool, SEnum, SInt, SReal, Sym, SymBytes, SymBytesFn, SymCArray, SymStructArray,
                      SymEscape, SymStruct, Unsupported, has_sym, lift, lift_int, lift_real,
                      mk_bool, mk_int)
 
@@ -113,15 +113,20 @@ class SourceIndex:
             first = min([d.lineno for d in n.decorator_list] + [n.lineno])
             last = n.end_lineno
             sha = hashlib.sha1("\n".join(lines[first - 1:last]).encode()).hexdigest()[:12]
-            self.used[q] = (os.path.relpath(filename, REPO_ROOT), first, last, sha)
+            if filename.startswith(REPO_ROOT + os.sep):
+                self.used[q] = (os.path.relpath(filename, REPO_ROOT), first, last, sha)
 
 
 SOURCES = SourceIndex()
 
 
+SPEC_ROOT = os.path.join(os.path.dirname(os.path.dirname(os.path.abspath(__file__))), "specs")
+
+
 def is_repo_code(code):
+    """code that is interpreted from its AST: the repository, and the spec functions the contracts refer to"""
     fn = getattr(code, "co_filename", "")
-    return fn.startswith(REPO_ROOT + os.sep)
+    return fn.startswith(REPO_ROOT + os.sep) or fn.startswith(SPEC_ROOT + os.sep)
 
 
 def is_repo_function(f):
@@ -639,6 +644,14 @@ class Interp:
             else:
                 self.models.struct_init(self, obj, args, kwargs)
             return obj
+        if issubclass(cls, ctypes.Array) and issubclass(cls._type_, ctypes.Structure):
+            if kwargs or len(args) > cls._length_:
+                raise PyExc(IndexError("invalid index"))
+            elems = list(args) + [SymStruct(cls._type_) for _ in range(cls._length_ - len(args))]
+            for e in elems:
+                if not (isinstance(e, SymStruct) and e.S is cls._type_):
+                    raise PyExc(TypeError(f"expected {cls._type_.__name__} instance"))
+            return SymStructArray(cls, elems)
         if issubclass(cls, enum.Enum):
             return self.models.enum_lookup(self, cls, args, kwargs)
         if issubclass(cls, BaseException) and not self._has_repo_init(cls):
@@ -760,7 +773,7 @@ class Interp:
                 return o.__name__
             raise PyExc(AttributeError(name))
         if isinstance(o, type):
-            if issubclass(o, (ctypes.Structure, ctypes._SimpleCData)) and name in ("from_buffer_copy", "from_buffer"):
+            if issubclass(o, (ctypes.Structure, ctypes._SimpleCData, ctypes.Array)) and name in ("from_buffer_copy", "from_buffer"):
                 return self.models.FromBuffer(o)
             a = self.class_lookup(o, name)
             if a is not None:
@@ -830,7 +843,7 @@ class Interp:
         if isinstance(o, SymStruct):
             if name in o.field_names():
                 try:
-                    o.store(name, v)
+                    o.store(name, self.models._fold_opt(self, v))
                 except TypeError as e:
                     raise PyExc(e)
                 return
